@@ -250,6 +250,7 @@ R03.6 the expecter method registers mock.On(<method name>, parameters in order, 
 R03.7 the typed Run wrapper unpacks what Called packed: args[i] is asserted to the type packed at position i, the variadic tail only to the type of the items packed there, nillable types only under a nil test; run is called once with all parameters in order;
 R03.8 Return forwards exactly its parameters to Call.Return; RunAndReturn takes a func of exactly the method's signature and installs it through Call.Return (results) or Run (no results);
 R03.9 the constructor calls Mock.Test(t), registers t.Cleanup(func(){ AssertExpectations(t) }) and returns that mock;
+R03.5 no identifier fixed by the template is declared in a scope enclosing a use of a user-named parameter (it would capture the argument handed to providers/Called) unless allocated through Scope.AllocateName;
 R03.10 unroll-variadic is read from the interface's merged template-data.`
 	c.NotDecided = "testify's matching, Once/Times, failure reporting; run-time values; shapes beyond the tier bound."
 	c.Assumptions = []string{"testify's mock.Mock/Call/Arguments behave as documented (stubbed signatures)", "engine T's accessor table (C14 checks it against the Go code)"}
@@ -289,6 +290,24 @@ R03.10 unroll-variadic is read from the interface's merged template-data.`
 		testifyRules(c, p)
 	})
 	accessorTableGuard(c, "R03.11")
+	configResolutionGuard(c, "R03.12")
+	// R03.5: no template-fixed local may capture a parameter where the body passes it on
+	hz, hp := map[string]string{}, map[string]string{}
+	n := 0
+	walkTemplate(c, "testify", "body", func(p *TPath) {
+		if p.Err == nil && p.ParseEr == nil && !usesTypeParamTypes(p.Shape) {
+			n += captureHazards(p, hz, hp)
+		}
+	})
+	c.Rule("R03.5", 100, "")
+	for k, d := range hz {
+		if strings.Contains(k, "|capture|") {
+			c.Fail("R03.5", k, hp[k], d)
+		}
+	}
+	for i := 0; i < n; i++ {
+		c.OK("R03.5", "scope-analysis", "", "")
+	}
 }
 
 func testifyRules(c *Ctx, p *TPath) {
